@@ -24,7 +24,19 @@ func join(ss []string) string {
 }
 
 func init() {
-	NotApplicable["C11"] = "Every clause quantifies over calendar arithmetic on runtime dates (AddDate, Weekday, month lengths, sort.Search over generated periods). No clause has a shape-level reading that a rule could name without also firing on behaviour-preserving rewrites of the date arithmetic; enumerating the (finite) domain would be running the code, which is a different technique family."
+	claim(&Property{
+		ID: "C11",
+		Decides: []string{
+			"(K-part-chain) how the periods are constructed, not the calendar arithmetic: the periods are produced backwards from the window's end; each appended period ends at the loop variable `end`, whose first value is the window's End and whose next value is AddDate(0,0,-1) of the very Start stored in the period just appended (consecutive, no gap, no overlap by construction); that Start is StartOf(end, interval) for the function's own interval parameter, replaced by the window's Start exactly when it lies before it; the loop is left only when `end` lies before the window's Start or on a limit that depends only on `last` and the number of periods produced; the periods are reversed before they are stored;",
+			"(K-part-align) a date is attributed by sort.Search(len(periods), i -> !periods[i].End.Before(d)); the result is periods[index].End when index < len(periods) and the zero time otherwise, and no other condition decides it;",
+			"(K-part-dates) StartDates / EndDates append the Start / End of every period, unconditionally and in order;",
+			"(K-partition-whole) no consumer reslices or indexes those lists with constants.",
+		},
+		NotDecided: []string{
+			"the calendar arithmetic itself: StartOf/EndOf (weekday, month, quarter arithmetic), time.AddDate, that `--last n` keeps exactly n periods (the comparison operator of the limit), the correctness of the reversal loop's index arithmetic beyond its shape, dates before the first shown period. A change inside StartOf (seeded change C10-D) is not reported.",
+		},
+		Rules: []Rule{RuleKPartChain, RuleKPartAlign, RuleKPartDates, RuleKPartitionWhole},
+	})
 }
 
 func init() {
@@ -113,12 +125,13 @@ func init() {
 			"(K-partition-whole) period start and end dates are consumed whole (closing days, columns);",
 			"(K-insert) every posting with a non-nil mapped account is added exactly once, keyed by the transaction's date.",
 			"(K-name-anchored) no unanchored substring replacement is applied to an account name or its segments (remapping edits the type root only);",
+			"(K-part-align) the column a booking lands in is the end of the first period that does not end before its date (binary search on the period ends), under no other condition;",
 		},
 		NotDecided: []string{
 			"any cell value: window, --last, --diff and closing arithmetic, running sums, row selection (arithmetic over runtime dates and amounts; no rule in reach bounds them);",
 			"the alignment of dates to period ends (C11).",
 		},
-		Rules: []Rule{RuleB1, RuleKNameAnchored, RuleG1, RuleG2, RuleKWhereBeforeSelect, RuleKPartitionWhole, RuleKInsert, RuleKReportAmounts},
+		Rules: []Rule{RuleB1, RuleKNameAnchored, RuleG1, RuleG2, RuleKWhereBeforeSelect, RuleKPartitionWhole, RuleKPartAlign, RuleKInsert, RuleKReportAmounts},
 	})
 	claim(&Property{
 		ID: "C03",
